@@ -5,8 +5,8 @@ import Driver.Common
 
 ops (macro ops executed by `harness/hcore/src/bin/timers.rs` at quiescent points):
   `case <n>`                      fresh runtime, fresh target; clock 0
-  `sa <p>` `si <p>` `ea <p>` `ka <p>`   send_after / send_interval / exit_after / kill_after, period p ms
-  `adv <d>`                       tokio::time::advance(d ms), run to quiescence
+  `sa <p>` `si <p>` `ea <p>` `ka <p>`   send_after / send_interval / exit_after / kill_after, period p µs
+  `adv <d>`                       tokio::time::advance(d µs), run to quiescence   (every time and duration is in µs)
   `advabort <d> <i>`              clock += d, abort timer i before the time driver runs
   `advstop <d>` `advkill <d>` `advdrain <d>`   clock += d, then the API call on the target
   `abort <i>` `stop` `kill` `drain`
